@@ -7,8 +7,15 @@
    library itself at line level and records what the real readers do with them; (c) for every
    registered name of every registry it records parameter_info() -> parse -> parameter_info().
 3. TLC (spec/Trace_KeyParser.tla) must explain every recorded line.  Python only orchestrates."""
-import os, json, re, glob, concurrent.futures as cf
+import os, json, re, glob, time, concurrent.futures as cf
 from . import lib
+
+_T = [time.time()]
+
+
+def _lap(what):
+    lib.log("  [c17] %-28s %5.1fs" % (what, time.time() - _T[0]))
+    _T[0] = time.time()
 
 ACTIONS = ["ContinueLine", "SkipBlankLine", "StartKey", "FirstLineBeforeStart", "StartKeyAgain", "StopKey", "NoOpLine",
            "IgnoreBadValue", "AssignScalar", "AssignIndexed", "IndexError", "EofBeforeStart", "EofAccept"]
@@ -73,22 +80,42 @@ def _replay_a(ctx, exe):
 
 def _headers_b(ctx, exe):
     """line-level mutations of headers written by the library, one driver process per reader"""
-    readers = ["img_direct", "img_generic", "pd_direct", "pd_generic"]
-    outs = [os.path.join(ctx.work, "b.%s.ndjson" % r) for r in readers]
-    env = {"VERIF_SEED": str(ctx.seed), "ASAN_OPTIONS": ASAN % (256, 0)}
+    jobs = [("img_direct", 0, 1), ("img_generic", 0, 1)] + [(r, p, 3) for r in ("pd_direct", "pd_generic") for p in range(3)]
+    outs = [os.path.join(ctx.work, "b.%s.%d.ndjson" % (r, p)) for (r, p, n) in jobs]
+    env = {"VERIF_SEED": str(ctx.seed), "ASAN_OPTIONS": ASAN % (256, 0), "UBSAN_OPTIONS": "print_stacktrace=1:halt_on_error=1:exitcode=78:symbolize=0"}
 
     def one(i):
-        w = os.path.join(ctx.work, "hdr-" + readers[i])
+        r, p, n = jobs[i]
+        w = os.path.join(ctx.work, "hdr-%s-%d" % (r, p))
         os.makedirs(w, exist_ok=True)
-        lib.run_driver(exe, ["hdr", w, outs[i], 0 if ctx.quick else 1, readers[i]], env=env, timeout=1500)
-    with cf.ThreadPoolExecutor(len(readers)) as ex:
-        list(ex.map(one, range(len(readers))))
-    chunks = []
+        lib.run_driver(exe, ["hdr", w, outs[i], 0 if ctx.quick else 1, r, p, n], env=env, timeout=1500)
+    with cf.ThreadPoolExecutor(len(jobs)) as ex:
+        list(ex.map(one, range(len(jobs))))
     for o in outs:
-        if sum(1 for _ in open(o)) < 100:
+        if sum(1 for _ in open(o)) < 50:
             raise lib.ModelFailure("header mutation run recorded too little: " + o)
-        chunks += [c[0] for c in lib.split_trace(o, os.path.join(ctx.work, "chunks"), maxlines=700, boundary="Hdr")]
-    return chunks
+    return outs
+
+
+def _group(paths, n, outdir, tag):
+    """concatenate trace files into n files (every file starts with its own Hdr lines, so this is safe)"""
+    os.makedirs(outdir, exist_ok=True)
+    sizes = sorted(((os.path.getsize(p), p) for p in paths), reverse=True)
+    bins = [[0, []] for _ in range(n)]
+    for sz, p in sizes:
+        b = min(bins, key=lambda x: x[0])
+        b[0] += sz
+        b[1].append(p)
+    out = []
+    for i, (sz, ps) in enumerate(bins):
+        if not ps:
+            continue
+        o = os.path.join(outdir, "%s.%02d.ndjson" % (tag, i + 1))
+        with open(o, "w") as f:
+            for p in ps:
+                f.write(open(p).read())
+        out.append(o)
+    return out
 
 
 def _roundtrip_c(ctx, exe):
@@ -144,9 +171,13 @@ def run(ctx):
     if ctx.replay:
         _validate(ctx, [ctx.replay], 1)
         return ctx.finish(rule="replay of a saved trace")
+    _T[0] = time.time()
     _model_check(ctx)
+    _lap("model check + census")
     exe = lib.build_driver("c17_keyparser", santree=True)
+    _lap("build driver")
     chunks = _replay_a(ctx, exe)
+    _lap("generate + replay (a)")
     for c in chunks[:1]:
         recs = lib.read_ndjson(c)
         for rec in recs[5:400:131]:
@@ -155,8 +186,12 @@ def run(ctx):
     for rec in lib.read_ndjson(bchunks[0])[3:200:67]:
         if rec["e"] == "Mut":
             ctx.sample({k: rec[k] for k in ("reader", "mut", "at", "fresh", "obs")})
+    _lap("header mutations (b)")
     cchunks = _roundtrip_c(ctx, exe)
-    _validate(ctx, chunks + bchunks + cchunks, 4 if q else 8)
+    _lap("round trips (c)")
+    bc = _group(bchunks + cchunks, 4 if q else 8, os.path.join(ctx.work, "chunks"), "bc")
+    _validate(ctx, chunks + bc, 4 if q else 8)
+    _lap("trace validation")
     if ctx.extra.get("round_trips", 0) < 20 or ctx.extra.get("header_outcomes_accepted", 0) < 100:
         raise lib.ModelFailure("too few round trips / accepted headers recorded: the recording is not exercising the code")
     ctx.exhaustive = False
